@@ -126,6 +126,7 @@ type Exec struct {
 	wg   sync.WaitGroup
 	rels [4]uint64
 
+	policy    int
 	delayMode bool
 	onPoint   func(x *Exec, key uint64) bool // online state-cache check at every new decision point
 
@@ -187,7 +188,12 @@ func (x *Exec) enabledList() ([]*thread, bool) {
 		l = append(l, x.cur)
 		runningEnabled = true
 	}
-	for _, t := range x.threads {
+	n := len(x.threads)
+	for k := 0; k < n; k++ {
+		t := x.threads[k]
+		if x.policy == 1 {
+			t = x.threads[n-1-k] // default scheduler prefers the most recently created thread
+		}
 		if t == x.cur || t.done {
 			continue
 		}
@@ -647,6 +653,10 @@ type Config struct {
 	// (operations on different objects are independent) + happens-before state caching. Preemptions
 	// is ignored; Deviations still bounds the data choices.
 	Full bool
+	// Policy selects the default scheduler the deviations are counted from: 0 = continue the running
+	// thread, else the lowest-id enabled thread; 1 = continue the running thread, else the highest-id
+	// (most recently created) enabled thread.
+	Policy int
 	// DelayBounding: every non-default thread choice costs one unit of Preemptions (delay bounding:
 	// the default scheduler continues the running thread, or the lowest-id enabled thread when it
 	// blocks). Off: only switches away from a still-enabled thread cost (preemption bounding).
@@ -684,9 +694,18 @@ func RunOnce(prefix []int, horizon int, conflicts map[string]bool, reset func(),
 }
 
 var (
+	runPolicy    int
 	runDelayMode bool
 	runOnPoint   func(x *Exec, key uint64) bool
 )
+
+// RunOncePolicy is RunOnce under the given default-scheduler policy (see Config.Policy).
+func RunOncePolicy(policy int, prefix []int, horizon int, conflicts map[string]bool, reset func(), body func(x *Exec)) *Exec {
+	old := runPolicy
+	runPolicy = policy
+	defer func() { runPolicy = old }()
+	return RunOnce(prefix, horizon, conflicts, reset, body)
+}
 
 func runOnce(prefix []int, horizon int, conflicts map[string]bool, reset func(), body func(x *Exec), sleepMode bool, initSleep []int) *Exec {
 	big.Lock()
@@ -704,7 +723,7 @@ func runOnce(prefix []int, horizon int, conflicts map[string]bool, reset func(),
 	}
 	x.sleepMode = sleepMode
 	x.initSleep = initSleep
-	x.delayMode, x.onPoint = runDelayMode, runOnPoint
+	x.delayMode, x.onPoint, x.policy = runDelayMode, runOnPoint, runPolicy
 	x.sleep = map[int]bool{}
 	t := &thread{id: 0, wake: make(chan struct{})}
 	x.threads = []*thread{t}
@@ -736,6 +755,8 @@ func (x *Exec) Logf(format string, a ...any) {
 // exploration is restarted with them as additional scheduling points.
 func Explore(cfg Config, body func(x *Exec)) *Stats {
 	st := &Stats{Outcomes: map[string]int64{}, TraceHashes: map[uint64]struct{}{}}
+	runPolicy = cfg.Policy
+	defer func() { runPolicy = 0 }()
 	if cfg.NShards <= 0 {
 		cfg.NShards = 1
 	}
